@@ -46,7 +46,7 @@ CLAIMS = {
                 "Burgers / KS equal their generic equivalents; and about the WIRING regenerated from every class's __init__ / "
                 "_build_nonlinear_fun (37 classes, harness/translate_wiring.py): the difficulty and normalized interfaces hand their "
                 "parent exactly the documented conversions and every option unchanged, and specific / general / difficulty steppers "
-                "instantiate the same documented nonlinear term with the user's flags. ASSEMBLED (Properties/C13_assembly.lean): for the convection, gradient-norm, general-nonlinear, polynomial and linear families the ETDRK-p step (p=0..4, whole spectra, regenerated coefficients/operators/wiring) of the physical stepper equals that of the normalized stepper on (alpha,beta) and of the difficulty stepper on (gamma,delta); two configurations with equal groups have equal steps (real domain extent needed for the nonlinear laws, counterexample otherwise). Correspondence: conversions; every member of the specific/generic/"
+                "instantiate the same documented nonlinear term with the user's flags. ASSEMBLED (Properties/C13_assembly.lean): for the convection, gradient-norm, general-nonlinear, polynomial and linear families the ETDRK-p step (p=0..4, whole spectra, regenerated coefficients/operators/wiring) of the physical stepper equals that of the normalized stepper on (alpha,beta) and of the difficulty stepper on (gamma,delta); two configurations with equal groups have equal steps (real domain extent needed for the nonlinear laws, counterexample otherwise). Step-level specific = generic on the regenerated operators and wiring: Burgers, KdV (default flags, or D=1), both KS forms and Fisher-KPP (generic zeroth coefficient r/D) equal their generic equivalents. Correspondence: conversions; every member of the specific/generic/"
                 "normalized/difficulty families vs the one model evaluated on the documented equivalent, EVERY combination of the "
                 "boolean options (conservative, single_channel, mixing flags); the regenerated symbol of every stepper class vs the "
                 "array the class builds. Oracle: specific-vs-generic pairs of the overview.",
@@ -58,7 +58,7 @@ CLAIMS = {
                 "exponax/_utils.py: lax.scan as a fold): entry i of rollout is the (i+1)-fold application (shifted with the "
                 "initial state prepended), repeat = last entry = f^n, step counts add, aux inputs are consumed in order / held "
                 "constant, windows = every contiguous slice in order with rejection iff too long, RepeatedStepper = n inner "
-                "steps with dt*n. Correspondence: exact integer bookkeeping steppers for every (n, flags), pytree leaves, "
+                "steps with dt*n. Variable aux with include_init (entry 0 the initial state, entry i+1 after consuming aux 0..i) and the regenerated aux rollout (wrong-length aux rejected). Correspondence: exact integer bookkeeping steppers for every (n, flags), pytree leaves, "
                 "every (T, window) pair; RepeatedStepper numerically vs n model steps.",
         "technique": "Lean 4 proof (induction over fold model) + exact model/implementation correspondence",
         "design_ref": "DESIGN.md §5 C14",
@@ -102,7 +102,7 @@ CLAIMS = {
                 "right-exclusive with spacing L/N, flat<->multi index bijection; DFT: irfftn(rfftn u)=u for every real u, all D>=1, "
                 "N>=1; single-mode read-off a cos(2 pi k x/L+phi) (1-D, incl. DC/Nyquist); Parseval in the half layout. "
                 "exponax.fft/ifft REGENERATED from _spectral.py (axis selection, inference of omitted "
-                "arguments) are the model transforms per channel. Composed extraction: the regenerated get_fourier_coefficients of a sampled mode a cos(k.x+phi) is a e^{i phi} 2^{n-1} at the stored index of k (n = non-zero components; exactly a e^{i phi} axis-aligned) and 0 elsewhere. Correspondence: exhaustive exact comparison of wavenumbers, scalings, masks (every cutoff), slices for all N in "
+                "arguments) are the model transforms per channel. Composed extraction: the regenerated get_fourier_coefficients of a sampled mode a cos(k.x+phi) is a e^{i phi} 2^{n-1} at the stored index of k (n = non-zero components; exactly a e^{i phi} axis-aligned) and 0 elsewhere. indexing='xy' for every D>=2: wavenumbers and grid swap their first two components, scaling arrays do not depend on the indexing, the single-mode read-off holds on the xy grid; n-D read-off at Nyquist wavenumbers (stored representative, self-conjugate modes carry a cos(phi)). Correspondence: exhaustive exact comparison of wavenumbers, scalings, masks (every cutoff), slices for all N in "
                 "range x D in 1..3; rfftn/irfftn (non-Hermitian input too), make_grid, wrap_bc. Oracle: every wavenumber vector of "
                 "the layout as a single mode; ij/xy consistency.",
         "technique": "Lean 4 proof (integer layout + DFT theory) + exhaustive exact correspondence",
@@ -158,7 +158,7 @@ CLAIMS = {
                 "product — i.e. every nonlinear function of the library; zero outside the band for all terms in every dimension; "
                 "regenerated cross product = documented formula. Multi-channel gradient-norm / general variants are tied by the "
                 "correspondence and the 4x-oversampled oracle. "
-                "Correspondence: masks exactly for a contiguous N range (all residues mod 12), every nonlinear-function class vs the "
+                "Channels: polynomial / gradient-norm / general terms are channel-wise, so the statements hold per channel for any C; single-channel non-conservative convection in every D; the linear convolution of band-limited coefficient families IS the coefficient family of the pointwise product of the trigonometric polynomials in every D (sampling on N>3K resp. 4K points reads it exactly), hence on the retained modes each term is the band truncation of the spectrum of the documented CONTINUOUS operator (1/2 d(u^2), 1/2|grad u|^2, u sum d_d u, u^3, honest partial derivatives) applied to the continuous band-truncated field. Correspondence: masks exactly for a contiguous N range (all residues mod 12), every nonlinear-function class vs the "
                 "model, D=1..3.",
         "technique": "Lean 4 proof (DFT convolution/aliasing theory on the model pipeline) + model/implementation correspondence",
         "design_ref": "DESIGN.md §5 C03",
@@ -170,7 +170,7 @@ CLAIMS = {
                 "Poisson: per mode zero mean mode / operator*solution = -rhs / guard only at the mean mode, and in physical space "
                 "the solver returns for every Nyquist-free right-hand side the field with modes divided by s^2|k|^2, which the model "
                 "Laplacian maps back to -f; transform round trip for all D, N. derivative and the Poisson solver "
-                "(inverse operator with zero-mode guard, step) REGENERATED from _spectral.py / _poisson.py equal the model routines.  Correspondence: build_laplace_operator, derivative "
+                "(inverse operator with zero-mode guard, step) REGENERATED from _spectral.py / _poisson.py equal the model routines.  Poisson of every even order in physical space (order 4: opposite gain sign; operator applied to the solution returns -(f - mean f)), also through the regenerated Poisson_step. Correspondence: build_laplace_operator, derivative "
                 "(orders 1..6, C>=1), Poisson (orders 2, 4) vs the model on arbitrary states. Oracle: analytic derivatives of "
                 "Nyquist-free trigonometric polynomials, Poisson residual.",
         "technique": "Lean 4 proof (symbol algebra per mode + n-D DFT read-off of the model routines) + model/implementation correspondence",
@@ -207,7 +207,7 @@ CLAIMS = {
                 "(a^D)^q, Parseval (Fourier aggregate with 1/reconstruction-scaling weights = spatial aggregate for p=2, all D, "
                 "N), channel additivity, band additivity over adjacent bands and the full band, zero iff identical / positive "
                 "otherwise, symmetry, homogeneity of degree p*q, scale-freeness and symmetry of the normalized / symmetric "
-                "combinations, correlation in [-1,1] and +-1 for proportional fields. Sobolev split of the regenerated H1_* functions (plain + derivative-order-1 metric; the latter is the sum over axes of the gradient components' metric); p=2 metrics of a band-limited pair are unchanged by resampling to another resolution. Correspondence: every exported metric "
+                "combinations, correlation in [-1,1] and +-1 for proportional fields. Sobolev split of the regenerated H1_* functions (plain + derivative-order-1 metric; the latter is the sum over axes of the gradient components' metric); p=2 metrics of a band-limited pair are unchanged by resampling to another resolution. For a band-limited state the p=2 aggregator equals the (Mathlib) integral of u^2 over the box [0,L]^D, hence does not depend on N; multi-channel correlation lies in [-1,1] and is +-1 for proportional channels. Correspondence: every exported metric "
                 "function (spatial, Fourier with bands and derivatives, correlation) vs the model. Oracle: the same laws "
                 "measured on the implementation, resolution independence, Sobolev = value + gradient term.",
         "technique": "Lean 4 proof (real analysis of the quadratures + DFT Parseval) + model/implementation correspondence",
@@ -218,7 +218,7 @@ CLAIMS = {
                 "(with zero mean), unit max, clamping into [lo,hi] with both limits reached, scale factor, size preservation; "
                 "truncated Fourier series: requested offset in the mean mode and zero outside the cutoff; invalid option "
                 "combinations. jax.random, shapes of the drawn arrays and the function-form/sampled-form agreement are not "
-                "modelled (oracle on the implementation). Correspondence: normalize_ic, ClampingICGenerator, "
+                "modelled (oracle on the implementation). The remaining generators REGENERATED from ic/*.py with every random draw as an explicit input (Gaussian random field, diffused noise, discontinuities, sine waves, Gaussian blobs, multi-channel wrapper): spectrum-shaping contracts, two-valued discontinuity blocks, one_complement = 1 - blob, sampled form = function form on the regenerated grid, and the multi-channel function form equals the sampled form because both code paths route the sub-keys identically. Correspondence: normalize_ic, ClampingICGenerator, "
                 "RandomTruncatedFourierSeries (draws replicated) vs the model. (Repaired defects: see known_findings.json.)",
         "technique": "Lean 4 proof (normalisation algebra) + model/implementation correspondence; PRNG external",
         "design_ref": "DESIGN.md §5 C18",
@@ -242,7 +242,7 @@ CLAIMS = {
                 "lambda AT lambda=0 and in dt (the contour formulation never evaluates the removable singularity); the whole "
                 "ETDRK1/2/4 step is jointly differentiable in (dt, lambda) wherever no contour node is zero (every real lambda*dt); "
                 "derivative of the linear step w.r.t. a PDE coefficient; the guarded divisions are linear in their argument for every "
-                "divisor incl. 0 and the Poisson solve is linear; linear steppers: Jacobian = the step. JAX's AD engine and IEEE NaN "
+                "divisor incl. 0 and the Poisson solve is linear; linear steppers: Jacobian = the step. Every model term (convection in all four variants, gradient norm, general, vorticity, rotational 3-D, Cahn-Hilliard, Gray-Scott, BZ) between the model transforms is ContDiff of every order on whole physical states with an explicit JVP (convection: -b P(sum_d u d_d v + v d_d u)); the regenerated stage formulas of orders 1-4 are differentiable with the chain-rule derivative and whole rollouts are smooth (also for the regenerated GeneralConvectionStepper wiring); a linear stepper is an R-linear map of the whole state so its Jacobian is the stepper itself; transposes (derivative, dealiasing, linear step) and the explicit reverse-mode formula of the convection term. JAX's AD engine and IEEE NaN "
                 "propagation are not modelled: the correspondence compares jax.jvp / vjp of linear steppers with the model step of "
                 "the tangent; the oracle checks, on the implementation, jvp vs central differences, vjp = adjoint, forward = reverse "
                 "mode w.r.t. dt and every PDE coefficient for ETDRK orders 1-4, through rollouts, and finiteness + correctness at the "
@@ -263,7 +263,7 @@ CLAIMS = {
                 "caveat for odd-order terms on even grids); symbol-level permutation and 1-D embedding for every D; stage formulas "
                 "under arbitrary mode relabellings. Not proved in Lean: axis permutations of the nonlinear terms and 3-D axis "
                 "permutations at the transform level (correspondence of each stepper with the model + oracle on the implementation: "
-                "shifts, axis swaps with permuted anisotropic coefficients, reflections, embedding, incl. the Wave stepper).",
+                "shifts, axis swaps with permuted anisotropic coefficients, reflections, embedding, incl. the Wave stepper). AXIS PERMUTATIONS and 1-D EMBEDDING in every D: the spectrum of a permuted real state is the relabelled spectrum (every state); isotropic single-channel terms commute with axis permutations and multi-channel convection with the joint axis-and-channel permutation; ETDRK steps and rollouts of isotropic steppers commute with the permutation on real Nyquist-free states when N is odd or dealiasing is active (false for even N without dealiasing: recorded); the D-dimensional step of a 1-D state embedded along the last axis is the embedding of the 1-D step for every state.",
         "technique": "Lean 4 proof (DFT shift theorem + equivariance of model terms and translated stage formulas) + correspondence",
         "design_ref": "DESIGN.md §5 C08",
     },
